@@ -355,7 +355,44 @@ pub fn execute(scn: &CorScn, ctx: &mut Ctx) {
     if scn.dbf_rows > 0 && dbf.len() >= 8 {
         dbf[4..8].copy_from_slice(&scn.dbf_rows.to_le_bytes());
     }
+    if let Base::Raw { note, .. } = &scn.base {
+        if let Some(k) = note.strip_prefix("crowded-directory:").and_then(|k| k.parse::<usize>().ok()) {
+            crowded_route(ctx, &shp, &shx, k.min(100_000));
+            return;
+        }
+    }
     drive(ctx, &shp, &shx, &dbf, b.ty, b.n, scn.rbuf, &field);
+}
+
+/// The environment as input: a small valid .shp (first without, then with its .shx) opened by path
+/// in a directory that holds `k` unrelated files. What opening and reading it requests from the
+/// allocator is bounded by the bytes of the data set, not by what else lies in the directory.
+fn crowded_route(ctx: &mut Ctx, shp: &[u8], shx: &[u8], k: usize) {
+    let dir = crate::scratch_dir().join(format!("crowd-{}", k));
+    if !dir.join("populated").exists() {
+        let _ = std::fs::create_dir_all(&dir);
+        for i in 0..k {
+            let _ = std::fs::File::create(dir.join(format!("unrelated-{:06}.dat", i)));
+        }
+        let _ = std::fs::File::create(dir.join("populated"));
+    }
+    for (stem, index_ext) in [("small", None), ("SMALL", Some("SHX")), ("other", Some("shx"))] {
+        let path = dir.join(format!("{}.shp", stem));
+        if std::fs::write(&path, shp).is_err() {
+            ctx.fail("HARNESS", "scratch", "crowded-directory", "cannot write into the scratch directory".to_string());
+            return;
+        }
+        let mut input_len = shp.len();
+        if let Some(ext) = index_ext {
+            let _ = std::fs::write(path.with_extension(ext), shx);
+            input_len += shx.len();
+        }
+        let mut j = Judge { ctx: &mut *ctx, input_len, field: "crowded-directory".into(), outcomes: String::new() };
+        let _ = j.call("from_path(crowded directory)", || shapefile::ShapeReader::from_path(&path).map(|mut r| drain_count(r.iter_shapes(), 64)).is_ok());
+        let _ = j.call("read_shapes(crowded directory)", || shapefile::read_shapes(&path).map(|v| v.len()).unwrap_or(0));
+        let _ = j.call("Reader::from_path(crowded directory)", || shapefile::Reader::from_path(&path).is_ok());
+    }
+    ctx.stats.reach("by-path-in-a-crowded-directory");
 }
 
 /// Field id + value class of the mutations (fingerprint material; survives unrelated edits).
@@ -697,6 +734,22 @@ pub const LADDER: [u64; 9] = [1_000, 100_000, 1_000_000, 10_000_000, 100_000_000
 /// C17 ladder unit: unit index = type index (0..13) or 13 for the index file.
 pub fn ladder_unit(unit: u64, ctx: &mut Ctx, ctl: &mut UnitCtl) {
     let mut inputs: Vec<(String, Vec<u8>, Vec<u8>)> = Vec::new();
+    if unit == 15 {
+        // a small valid data set opened by path among 20 000 unrelated files
+        let w = WProg { calls: vec![WCall::W(0)], shapes: vec![grid_spec(1, 1, 1, 1)], others: vec![], ending: Ending::Drop, with_shx: true, stack: StackCfg::Direct };
+        let Some(b) = produce(&Base::Written(w)) else {
+            ctx.fail("HARNESS", "invalid-scenario", "base", "cannot produce the small file".to_string());
+            return;
+        };
+        let scn = CorScn { base: Base::Raw { shp: b.shp.clone(), shx: b.shx.clone(), note: "crowded-directory:20000".into() }, muts: vec![], rbuf: 0, dbf_rows: 0 };
+        if ctl.before_case(|| Scenario::Corrupt(scn.clone())) {
+            ctx.stats.evaluations += 1;
+            execute(&scn, ctx);
+            ctx.stats.fault("environment:crowded-directory", 1);
+            ctl.after_case(ctx, || Scenario::Corrupt(scn.clone()));
+        }
+        return;
+    }
     if unit == 14 {
         // valid, fully backed files with unusual but legal structure: many small parts, many
         // points, many records (memory must stay proportional to the input for these too)
